@@ -26,6 +26,7 @@ operations (each answers with a state dump, prefixed as noted):
   enc <unit ids>   -> the decision variables of the Solution built from the current state (`solutionVariables`,
                       Crem/Model/Solution.lean): <var> <value> <k> <unit>=<value> … D <cell per planning unit of the detail file> | …
                       (C11, output side)
+  mact <unit ids>  -> the management-actions file of the Solution: H <type indices of the columns> | <unit>:<0/1 cells> …
 A line whose evaluation passes within 1e-9 of a rounding boundary answers BOUNDARY (the check
 discards the rest of that walk: it cannot be decided at float precision).
 -/
@@ -136,6 +137,16 @@ def encStr (D : Data) (s : State) (pus : List PU) : String :=
     let cells := (detailCells e pus).map fun x => s!" {gridStr (precOf e.id) x}"
     s!"{shortName e.id} {gridStr (precOf e.id) e.value} {e.perUnit.length}{String.join units} D{String.join cells}")
 
+def typeIdxOf : ActType → Nat
+  | .gully => 0 | .hillslope => 1 | .riparian => 2 | .wetland => 3
+
+/-- the `mact` line: the management-actions file of the current state — headings (type indices), then one row per
+planning unit of the solution -/
+def mactStr (D : Data) (s : State) (pus : List PU) : String :=
+  let hs := " ".intercalate ((typesPresent D.acts).map fun t => toString (typeIdxOf t))
+  let rows := (actionMatrix D.acts s.flags pus).map fun (p, cells) => s!"{p}:{bitsStr cells}"
+  s!"H {hs} | " ++ " ".intercalate rows
+
 def parseBits (w : String) : Option (List Bool) :=
   if w = "-" then some [] else
   if w.toList.all (fun c => c = '0' ∨ c = '1') then some (w.toList.map (· = '1')) else none
@@ -183,6 +194,10 @@ def step (st : St) (line : String) : St × String :=
         if riskAt st i then ({ st with dead := true }, "BOUNDARY") else
         let s := propose st.D st.s i
         ({ st with s := s }, s!"{boolStr (changeIsValid st.D s)} {quoted st.D s} C {changesStr s} | {dump s}")
+      | none => (st, "bad-op")
+    | "mact" :: ids =>
+      match ids.mapM String.toInt? with
+      | some pus => (st, mactStr st.D st.s pus)
       | none => (st, "bad-op")
     | "enc" :: ids =>
       -- `ids`: the planning units in the order the solution lists them (the model's `PlanningUnits()`)
